@@ -301,4 +301,14 @@ theorem selectGen_after (isWord : Char → Bool) (lower : List Char → List Cha
   | error e => rfl
   | ok a => simp only [matchGen_kw', Except.map]
 
+theorem afterStepGen_eq (isWord : Char → Bool) (lower : List Char → List Char) (tasks : List TaskInfo) (i : Nat)
+    (expr : List Char) : afterStepGen afterLoop isWord lower tasks i expr = afterPredsOf isWord lower tasks i expr := by
+  have h : afterLoop = ⟨"select_by_after_keyword", true, true, true⟩ := by decide
+  rw [h]
+  unfold afterStepGen afterPredsOf
+  simp only [bne_self_eq_false, Bool.not_true, Bool.or_self, Bool.false_eq_true, ↓reduceIte, selectGen_after]
+  cases selectByAfter isWord lower expr tasks with
+  | error e => rfl
+  | ok sel => rfl
+
 end Pytask.SelExpr.Gen
